@@ -86,6 +86,13 @@ _colour_span_re = re.compile(r'\x03\d{0,2}(?:,\d{0,2})?')
 
 def classify_wrap(I, s, length):
     """which known-finding classes the input (s, length) of ircutils.wrap falls in — computed with the real code only"""
+    try:
+        return _classify_wrap(I, s, length)
+    except Exception:       # the code under test crashes on this input: no class explains that
+        return set()
+
+
+def _classify_wrap(I, s, length):
     out = set()
     p = I.ircutils.FormatParser(s)
     p.parse()
@@ -700,7 +707,7 @@ def run(ctx):
     if ctx.thorough:
         n_pure, n_wrap, n_live = 120000, 60000, 6000
     else:
-        n_pure, n_wrap, n_live = 9000, 4000, 350
+        n_pure, n_wrap, n_live = 20000, 10000, 700
     I, B, LB = explore(ctx, n_pure, n_wrap, n_live)
     if build.driver_ok:
         B.fill()
